@@ -1031,7 +1031,7 @@ def check_C01(args):
                 if i % 2:
                     d.flush(rng.choice(gtabs).name)
             yield scenario_from_hist("C01-d%d" % di, gtabs, menu, d.h), gtabs
-        for di in range(4 if quick else 40):
+        for di in range(12 if quick else 60):
             # the aggregate catalogue under flushes: few keys and periods, points that lack one of
             # the values, out-of-order arrival, a flush of the catalogue table after every point, so
             # that set and unset periods of file and memstore series are merged in both orders
